@@ -60,6 +60,10 @@ type scEnv struct {
 	WG    sync.WaitGroup
 	// Stopped: the policy was closed; automata stop producing events.
 	Stopped bool
+	// MaxTries bounds the connection attempts per address; later attempts hang
+	// in CONNECTING (keeps a run finite when a policy reconnects for ever with
+	// nanosecond backoffs).
+	MaxTries int
 
 	// Before/After bracket every delivery (inside Into). kind is "state" or "health".
 	Before func(sc *fakeSC, kind string, s connectivity.State)
@@ -72,7 +76,7 @@ type scEnv struct {
 var errConnRefused = errors.New("simulated: connection refused")
 
 func newSCEnv(e *core.Env, cc *fakeCC, plans []addrPlan) *scEnv {
-	env := &scEnv{E: e, CC: cc, Plans: map[string]*addrPlan{}, tries: map[string]int{}}
+	env := &scEnv{E: e, CC: cc, Plans: map[string]*addrPlan{}, tries: map[string]int{}, MaxTries: 10}
 	for i := range plans {
 		env.Plans[plans[i].Addr] = &plans[i]
 	}
@@ -123,6 +127,10 @@ func (env *scEnv) connect(sc *fakeSC) {
 	out := &connOutcome{K: "hang"}
 	if p := env.Plans[addr]; p != nil && len(p.Outcomes) > 0 {
 		out = &p.Outcomes[env.tries[addr]%len(p.Outcomes)]
+	}
+	if env.tries[addr] >= env.MaxTries {
+		out = &connOutcome{K: "hang"}
+		env.E.Probe("attempt_cap_reached")
 	}
 	env.tries[addr]++
 	a.True, a.Outcome = connectivity.Connecting, out
